@@ -162,6 +162,13 @@ def k2_search(ctx, pid: str):
                         "start positions must be range(pos, min(len, endpos)) ascending: got [%r, %r), spec [%r, %r)" % (lo, hi, lo_spec, hi_spec)))
             found = ("regex.match", "found") in o.path.choices
             if not calls:
+                if I.path.cons.decide_ge0(Aff.of(hi) - Aff.of(lo) - 1) is True:
+                    # the range is not empty, yet this path leaves the iteration without trying the pattern there
+                    skips = [t for t, v in o.path.choices if t.startswith("bool ")]
+                    out.append((rule + ".every-start", name, False,
+                                "a start position of the range is passed over without an anchored match attempt (decided by %s): the "
+                                "leftmost match may start exactly there" % (skips or "the loop body",)))
+                    return out
                 # empty range
                 out.append((rule + ".result", name, o.kind == "return" and o.value is None, "an empty scan must return None, got %r" % (o,)))
                 return out
@@ -243,6 +250,11 @@ def k11_contains(ctx, pid: str):
                              and I.path.cons.decide_ge0(ps[1].hi - (Q - 1)) is True)
                             or (len(ps) == 1 and I.path.cons.decide_ge0(-(Q - 1)) is True)))
             ok = okq and okt
+            if ok and text.kind != "str":
+                return [("K11.membership", name, ok, det),
+                        ("K11.total", name, False,
+                         "the query is looked up with the `in` of a Bio.Seq (%s), not of the text: that operator encodes a str query as ASCII "
+                         "and raises UnicodeEncodeError for any other string instead of answering False (T3)" % text.kind)]
         elif v is True and I.path.cons.decide_ge0(-Q) is True:
             ok = True
         return [("K11.membership", name, ok, det)]
@@ -639,7 +651,16 @@ def k0_vector_check(ctx, pid: str):
         if eq and eq[0]:
             ok = o.kind == "raise" and _is_exc(p, o.value, "moclo.errors.InvalidSequence")
             return [("K0.vector-overhangs", name, ok, "a vector whose two overhangs coincide must be refused with InvalidSequence, got %r" % (o,))]
-        return [("K0.vector-overhangs", name, o.kind == "return", "a vector with distinct overhangs must be accepted, got %r" % (o,))]
+        out = [("K0.vector-overhangs", name, o.kind == "return", "a vector with distinct overhangs must be accepted, got %r" % (o,))]
+        from .absint import AIter
+
+        mgr_obj = I.kernel_args[0]
+        for attr, v in sorted(mgr_obj.attrs.items()):
+            if isinstance(v, AIter):
+                out.append(("K0.reiterable", "%s#%s" % (name, attr), False,
+                            "self.%s is a one-shot iterator (%s): assemble() walks it once to dereference the citations and once more to "
+                            "restore them, and the second walk finds it exhausted" % (attr, v.what)))
+        return out
 
     emit(ctx, run_paths(ctx, fi, make_args, [], hooks=hooks, post=post), fi.where())
     ctx.report.floor("K0.vector-overhangs", 2)
@@ -973,7 +994,11 @@ def k16_assemble(ctx, pid: str):
         elements = ACollection("elements", lambda: _entity(mod_cls, "elem"))
         mods = ACollection("modules", lambda: _entity(mod_cls, "m"))
         obj = build_manager(I, mgr, V, mods)
-        obj.attrs["elements"] = elements
+        from .absint import AIter
+
+        built = obj.attrs.get("elements")
+        # (named "elements" for the report; a one-shot iterator stays one-shot)
+        obj.attrs["elements"] = AIter(elements, built.what) if isinstance(built, AIter) else elements
         return (obj,), {}
 
     def post(I, o):
